@@ -33,8 +33,11 @@ def strip(l):
 
 
 def tables(p):
-    return [None if m is None else [strip(m.in_links), strip(m.in_link_slots), strip(m.out_links), strip(m.out_link_slots)]
-            for m in p.modules]
+    out = [None if m is None else [strip(m.in_links), strip(m.in_link_slots), strip(m.out_links), strip(m.out_link_slots)]
+           for m in p.modules]
+    while out and out[-1] is None:          # trailing empty module positions are unobservable (N1)
+        out.pop()
+    return out
 
 
 def module_sections(chunks):
@@ -153,7 +156,7 @@ def run(ctx):
     ctx.add(r2.violations)
     # module numbers with gaps (one, two and three ADJACENT empty slots in front of linked modules)
     r3s = []
-    for holes in ((2, 1, 0), (0, 0, 3)):
+    for holes in c07.HOLE_LAYOUTS:
         r3 = explorer.bfs(ctx, PersistSystem(A1, holes), 4 if ctx.thorough else 3,
                           op_indices=rotate(range(len(A1)), ctx.seed), chunk=64, verify_chunk=64)
         ctx.add(r3.violations)
@@ -171,7 +174,7 @@ def run(ctx):
         "traces_validated_against_impl": r1.replay_verified + r2.replay_verified + sum(r.replay_verified for r in r3s),
         "exhaustive": not (r1.capped or r2.capped or any(r.capped for r in r3s)),
         "layouts_with_empty_slots": [{"holes": list(h), "depth_completed": r.depth_completed, "states": r.states}
-                                     for h, r in zip(((2, 1, 0), (0, 0, 3)), r3s)],
+                                     for h, r in zip(c07.HOLE_LAYOUTS, r3s)],
         "A1": {"depth_completed": r1.depth_completed, "states": r1.states, "states_round_tripped": r1.replay_verified + 1},
         "full_alphabet": {"ops": len(full), "depth_completed": r2.depth_completed, "states": r2.states,
                           "states_round_tripped": r2.replay_verified + 1},
